@@ -480,6 +480,9 @@ def concrete_oracle(struct, dst_i, vals):
 
 def replay(data):
     common.install_common_stubs()
+    if 'history' in data:
+        from . import histcheck
+        return histcheck.replay('C09', data)
     from bert_e.workflow.gitwaterflow import branches as B
     common.silence(B)
     if data.get('kind') == 'lemma':
@@ -642,3 +645,7 @@ def check(rep):
         rep.error('reachability twin not refuted')
     tag_language(rep)
     crosshair_lemmas(rep)
+    # the cascade inside complete jobs: tags are read from the clone, which comes from the mirror cache
+    from . import histcheck
+    histcheck.check(rep, 'C09')
+
